@@ -34,6 +34,12 @@ def cond_strings(ctx, conds):
                     kind = {"lt": "le", "le": "lt"}[kind]
                 out.add("%s(%s, %s)" % (kind, a, b))
                 continue
+            if kind == "eq" and len(ops) == 2 and len(allowed) == 1:
+                # x == 0 is the same test as x.is_zero(): one canonical string for both spellings
+                zs = [i for i, o in enumerate(ops) if o == "K:0" or re.match(r"^C:cosmwasm_std::(\S*::)?Uint128::zero@[^|]*$", o)]
+                if len(zs) == 1:
+                    out.add("is_zero(%s) is %s" % (ops[1 - zs[0]], sorted(allowed)))
+                    continue
             if kind in ("eq", "equal"):
                 ops = sorted(ops)
             out.add("%s(%s) is %s" % (kind, ", ".join(ops), sorted(allowed)))
